@@ -30,6 +30,8 @@ Decides:
  K4b retry            the adjacent-command retry should look at the failure it replaces (it does not: known finding, a final conversion
                            failure inside an adjacent command can be replaced by the retry's success and lose its text).
  K5c closures          the same exit rule holds inside the closure handed to from_fn (collect / many): no test of State::is_empty() or of positions.
+ K depth kept / E flags  State.path is only ever pushed (a failed command stays deeper than its siblings; shared with C08); flag presence = line OR any
+                        declared variable (shared with C18); the best failed attempt of an adjacent group is measured on its own window (shared with C10).
 Does not decide: which error survives for a particular nesting inside alternatives."""
 import re
 from core import *
